@@ -563,6 +563,22 @@ class Checkers(object):
         x = trunc_rows[0]
         tr = [e for e in x.effects if e.startswith('std::string::String::truncate(')]
         m = re.match(r'^std::string::String::truncate\(reply_text, (\$m\d+)\)$', tr[0]) if len(tr) == 1 else None
+        if not m and len(tr) == 1:
+            # the same search written as an iterator: the highest char boundary in 0..=N, else 0 (which always is one)
+            m2 = re.match(r'^std::string::String::truncate\(reply_text, std::option::Option::unwrap_or\(<std::iter::Rev<I> as std::iter::Iterator>::find\(std::iter::Iterator::rev\(std::ops::RangeInclusive::new\(0, (\w[\w:]*)\)\), '
+                          r'\|\$c0\| std::str::is_char_boundary\(reply_text, \$c0\)\), 0\)\)$', tr[0])
+            if m2:
+                bound = m2.group(1)
+                c = self.ctx.consts.get(bound)
+                n = int(bound) if bound.isdigit() else (int(c['bits']) if c is not None and c.get('bits') is not None else None)
+                if n is None or n > 255:
+                    return False, 'the search starts at %s, not at a constant <= 255' % bound
+                if ('(%s < %s)' % (bound, LEN), True) not in x.conds:
+                    return False, 'truncate is not on the true edge of `text.len() > %s`' % bound
+                short = [y for y in rows if ('(%s < %s)' % (bound, LEN), False) in y.conds]
+                if len(short) != 1 or any('truncate' in e or e.startswith('reply_text') for e in short[0].effects):
+                    return False, 'a text of at most %s bytes must be left alone' % bound
+                return True, 'truncate(p) with p the highest char boundary in 0..=%s (< len), or 0: in range and on a boundary' % bound
         if not m:
             return False, 'truncate is not truncate(reply_text, <position local>): %s' % tr
         end = m.group(1)
